@@ -127,7 +127,8 @@ func (o *OracleC23) killed(w *ledger.World, bc *ledger.BlockCtx, v *txnView) {
 			if q := o.M.ByID(req.ID); len(q) > 0 {
 				what = "target-of-kind-" + q[0].Kind.String()
 			}
-			o.viol(w, "target", v.Fn+"/"+what+"/state-changed/"+keyClass(k), fmt.Sprintf("%s for id %s changed record %q", v.Fn, req.ID, k))
+			ch := v.Recs[k]
+			o.viol(w, "target", v.Fn+"/"+what+"/state-changed/"+keyClass(k), fmt.Sprintf("%s for id %s, which is no %s, changed record %q (top-level fields before %v, after %v)", v.Fn, req.ID, kind, k, topKeys(ch.Old), topKeys(ch.New)))
 		}
 		return
 	}
